@@ -600,16 +600,27 @@ func ruleAddBeforeSpawn(c *Check, rule string, pkgs ...string) {
 	}
 }
 
-// addCoversLoop: `wg.Add(len(xs))` before a loop over xs.
+// addCoversLoop: `wg.Add(len(xs))` before a full-range loop over xs.
 func addCoversLoop(a ssa.CallInstruction, lp *engine.Loop) bool {
 	args := a.Common().Args
 	if len(args) < 2 {
 		return false
 	}
-	if _, isConst := args[1].(*ssa.Const); isConst {
+	if lp.RangedValue() == nil {
+		// `wg.Add(n)` before `for i := 0; i < n; i++`
+		if ifi, ok := lastIf(lp.Header); ok {
+			at := engine.CondAtom(ifi.Cond, true)
+			if at.Op == "lt" && at.Other != nil && (at.Other == args[1] || sameVar(at.Other, args[1]) || engine.ExprKey(at.Other) == engine.ExprKey(args[1])) {
+				return true
+			}
+		}
 		return false
 	}
-	return true
+	if !lp.IsFullRange() {
+		return false
+	}
+	coll, isLen := lenArg(args[1])
+	return isLen && (sameSlice(coll, lp.RangedValue()) || engine.ExprKey(coll) == engine.ExprKey(lp.RangedValue()))
 }
 
 func callsNamedDeep1(fn *ssa.Function, names ...string) []ssa.CallInstruction {
